@@ -65,7 +65,10 @@ class TypeNormalizer:
         if isinstance(t, str):
             t = eval(t, getattr(fn, "__globals__", {}))
 
-        if t is type:
+        if t is None:
+            # None as an annotation means the class of None, like in typing
+            t = type(None)
+        elif t is type:
             t = type[object]
         elif t is typing.Any:
             t = object
